@@ -26,7 +26,7 @@ CLAIMED["C15"] = dict(
 
 CLAIMED["C01"] = dict(
     category="model_checking", engine="vsched",
-    text="The real check engine (instrumented by tools/vinstr, run under the cooperative scheduler) is compared with an independent reference semantics (h/refsem: least fixpoint stratified over the SCCs of the atom dependency graph) on (A) every configuration with <=2 leaves over includes/traverse(recursive)/permits x every query-connected tuple set of <=3 tuples over 2 objects incl. subject sets, empty relations, duplicates x 3 queries x row orders, default mode, and typed OPL-rendered configurations in strict mode; (B) the same engine over the real SQL persister/traverser with row order forced through shard_id, cross-checked call by call count and answer against the in-memory store used for exploration; (C) ALL schedules up to deviation bound 1 (thorough 2) of ~700 scenarios that force the visited-set, cycle and short-circuit mechanisms - every outcome must equal the reference, so the answer is schedule independent within the bound. Cases the engine itself reports as cut by depth/width are excluded (C02). Added families: wide nodes on the SQL traverser (N subject sets around one and two traverser pages of 1000 rows, the subject a member of the K-th for every K around the seams; thorough every K); operator chains as OPL text (every || / && tree over 3-4 relations with none or one negated leaf in minimal TypeScript parentheses x all assignments of direct tuples, end to end through the parser); input enumeration of traverse configurations also with listings paged one row at a time.",
+    text="The real check engine (instrumented by tools/vinstr, run under the cooperative scheduler) is compared with an independent reference semantics (h/refsem: least fixpoint stratified over the SCCs of the atom dependency graph) on (A) every configuration with <=2 leaves over includes/traverse(recursive)/permits x every query-connected tuple set of <=3 tuples over 2 objects incl. subject sets, empty relations, duplicates x 3 queries x row orders, default mode, and typed OPL-rendered configurations in strict mode; (B) the same engine over the real SQL persister/traverser with row order forced through shard_id, cross-checked call by call count and answer against the in-memory store used for exploration; (C) ALL schedules up to deviation bound 1 (thorough 2) of ~700 scenarios that force the visited-set, cycle and short-circuit mechanisms - every outcome must equal the reference, so the answer is schedule independent within the bound. Cases the engine itself reports as cut by depth/width are excluded (C02). Added families: wide nodes on the SQL traverser (N subject sets around one and two traverser pages of 1000 rows, the subject a member of the K-th for every K around the seams; thorough every K); operator chains as OPL text (every || / && tree over 3-4 relations with none or one negated leaf in minimal TypeScript parentheses x all assignments of direct tuples, end to end through the parser); input enumeration of traverse configurations also with listings paged one row at a time. Two-namespace family (the same object names and relation in two namespaces, <= 4 tuples, both row orders); the SQL conformance part also asks with subject-set subjects, with and without relation.",
     note="Reference semantics written from the docs (strict mode from config.schema.json); bounds: <=2 leaves, <=3 tuples (thorough: 5 leaf kinds, all row permutations, deeper), deviation bound; violations that disappear under the counterfactual build with path-local visited sets are attributed to recorded finding KF-C01-1.",
     technique="bounded-exhaustive input enumeration + deviation-bounded stateless schedule exploration of the instrumented implementation against a reference model",
     design_ref="§4 C01")
@@ -52,13 +52,13 @@ CLAIMED["C04"] = dict(
     design_ref="§4 C04")
 CLAIMED["C06"] = dict(
     category="model_checking", engine="enum",
-    text="Two networks A and B on one database through the production contextualizer seam; B is seeded with a small graph that shares object/subject strings with A plus B-only strings. BFS over histories in A (C04's 56-operation alphabet incl. gRPC delete with an empty query) to depth 3 (thorough 5). After every transition B's observation vector (~105 list/check/expand requests over REST and gRPC) must be unchanged and no observation in A may contain a B-only string; a statement monitor on the SQL driver checks that every statement issued for A on keto_relation_tuples binds A's network id and never B's. The zero-UUID network is a third tenant (requests that carry uuid.Nil as network id must be scoped like any other); cross-network concurrent pairs: an operation in A is paused at every SQL statement boundary while B's observation vector is taken. Id-level family: A and B use the SAME internal ids at the Manager / Traverser / engine interfaces (16-tuple universe, 38 Manager operations in A, BFS depth 2 quick / 3 thorough; B's vector = lists, exists, both traversals, engine checks, expand trees). UUID-shaped names in every spelling uuid.FromString accepts, both write orders: each network lists exactly the spelling it wrote.",
+    text="Two networks A and B on one database through the production contextualizer seam; B is seeded with a small graph that shares object/subject strings with A plus B-only strings. BFS over histories in A (C04's 56-operation alphabet incl. gRPC delete with an empty query) to depth 3 (thorough 5). After every transition B's observation vector (~105 list/check/expand requests over REST and gRPC) must be unchanged and no observation in A may contain a B-only string; a statement monitor on the SQL driver checks that every statement issued for A on keto_relation_tuples binds A's network id and never B's. The zero-UUID network is a third tenant (requests that carry uuid.Nil as network id must be scoped like any other); cross-network concurrent pairs: an operation in A is paused at every SQL statement boundary while B's observation vector is taken. Id-level family: A and B use the SAME internal ids at the Manager / Traverser / engine interfaces (16-tuple universe, 38 Manager operations in A, BFS depth 2 quick / 3 thorough; B's vector = lists, exists, both traversals, engine checks, expand trees). UUID-shaped names in every spelling uuid.FromString accepts, both write orders: each network lists exactly the spelling it wrote. Relation-less subject sets and the special relation spellings '', '...', '*' in the probes of both levels (B holds a relation-less subject-set row with a B-only string).",
     note="SQLite only; keto_uuid_mappings has no nid column (ids are UUIDv5 of network id and string) so the monitor there checks that no statement binds B's nid or a UUIDv5(B, s).",
     technique="explicit-state BFS over histories in one tenant with an invariant on the other tenant's observables + SQL statement monitor",
     design_ref="§4 C06")
 CLAIMED["C07"] = dict(
     category="exploration", engine="enum",
-    text="Bounded-exhaustive pagination grid on the real handlers: page size {1,2,3} x 7 row counts around the page boundaries x 24 query shapes x duplicates; page size {0,100} x {99,100,101,201} rows; every 3-operation sequence of {none, insert below/above the cursor, delete a returned / a not yet returned other row} at the page boundaries with shard_ids placed by raw SQL; 10 malformed/odd token kinds; REST and gRPC. Oracle: concatenated pages = matching stable rows exactly once, |page| <= size, token empty iff last page, malformed token is a 4xx / InvalidArgument-class error. Storage-failure family: every SQL statement of one page fetch fails (generic error, sqlite LOCKED / BUSY, cancelled) - the answer is an error or the fault-free page, and continuing afterwards still yields every row once. Single-statement fault mode: one statement (every statement in turn) of a fetch of 150 rows / 300 names, whose name lookup spans several lookup pages.",
+    text="Bounded-exhaustive pagination grid on the real handlers: page size {1,2,3} x 7 row counts around the page boundaries x 24 query shapes x duplicates; page size {0,100} x {99,100,101,201} rows; every 3-operation sequence of {none, insert below/above the cursor, delete a returned / a not yet returned other row} at the page boundaries with shard_ids placed by raw SQL; 10 malformed/odd token kinds; REST and gRPC. Oracle: concatenated pages = matching stable rows exactly once, |page| <= size, token empty iff last page, malformed token is a 4xx / InvalidArgument-class error. Storage-failure family: every SQL statement of one page fetch fails (generic error, sqlite LOCKED / BUSY, cancelled) - the answer is an error or the fault-free page, and continuing afterwards still yields every row once. Single-statement fault mode: one statement (every statement in turn) of a fetch of 150 rows / 300 names, whose name lookup spans several lookup pages. Very large pages: 1500 rows at page sizes 999, 1000, 1001, 1499, 1500, 1501, 2000, 100000 (REST and gRPC).",
     note="Row order is forced through shard_id (the keyset key); SQLite only.",
     technique="bounded-exhaustive enumeration of (store size, page size, query shape, interleaved write history) against a multiset oracle",
     design_ref="§4 C07")
@@ -71,7 +71,7 @@ CLAIMED["C17"] = dict(
 
 CLAIMED["C14"] = dict(
     category="model_checking", engine="vsched",
-    text="Schedule exploration of request PAIRS on one instrumented engine over a fixed store: every multiset of 2 requests from {check x3 (shared sub-graph, cyclic data), batch check, expand} under two configurations (a && !b, b || traverse), all interleavings up to deviation bound 1 (thorough 2) with storage calls as scheduling points; each request's answer must lie in the outcome set the same request produces alone over all schedules to the same bound. Complement: the same kinds of requests free-running under the Go race detector against the sqlite registry and its REST/gRPC servers, concurrent first requests on fresh registries and mixed with writes; every distinct race report is a violation keyed by the top keto frames of both accesses. Built as three passes: (1) alone sets, every exploration split across all workers; (2) pairs incl. a depth-variant of the same tuple through CheckRelationTuple and CheckIsMember, cancel phases under both canonical select picks, a pagination phase through one shared ManagerWrapper; (3) API pass: 16 read requests (list pages with different tokens / sizes, checks with different depths, batch, expand; REST and gRPC) of one network, every ordered pair, the first paused inside the SQL driver before each of its statements.",
+    text="Schedule exploration of request PAIRS on one instrumented engine over a fixed store: every multiset of 2 requests from {check x3 (shared sub-graph, cyclic data), batch check, expand} under two configurations (a && !b, b || traverse), all interleavings up to deviation bound 1 (thorough 2) with storage calls as scheduling points; each request's answer must lie in the outcome set the same request produces alone over all schedules to the same bound. Complement: the same kinds of requests free-running under the Go race detector against the sqlite registry and its REST/gRPC servers, concurrent first requests on fresh registries and mixed with writes; every distinct race report is a violation keyed by the top keto frames of both accesses. Built as three passes: (1) alone sets, every exploration split across all workers; (2) pairs incl. a depth-variant of the same tuple through CheckRelationTuple and CheckIsMember, cancel phases under both canonical select picks, a pagination phase through one shared ManagerWrapper; (3) API pass: 16 read requests (list pages with different tokens / sizes, checks with different depths, batch, expand; REST and gRPC) of one network, every ordered pair, the first paused inside the SQL driver before each of its statements. The API pass includes lists over 150 names and the repeat oracle (the same request again, nothing else running, must answer the same); the race pass also runs two tenants with their own configuration sources.",
     note="The -race pass is not exhaustive (stated in evidence); cooperative scheduling cannot see data races; bounds: 2 concurrent requests, deviation bound.",
     technique="deviation-bounded stateless schedule exploration of concurrent requests on the instrumented implementation (differential against solo runs) + free-running race-detector pass",
     design_ref="§4 C14")
@@ -97,7 +97,7 @@ CLAIMED["C13"] = dict(
     design_ref="§4 C13")
 CLAIMED["C16"] = dict(
     category="exploration", engine="enum",
-    text="182 adversarial strings (empty, separators, escapes, NFC/NFD, RTL, emoji, 4-byte runes, 10 kB, case / trailing-space / ZWJ twins): all 33k ordered pairs for injectivity of the string<->UUID mapping; batches of sizes around 1, 50, 100, 150, 200, 250 (thorough 1..260, 301, 400, 401) x 5 duplicate patterns x {subject id, subject set, mixed} through Mapper.FromTuple->ToTuple, FromQuery->ToQuery (16 shapes) and ToTree, position-wise; end-to-end write -> list / expand / check over REST and gRPC; the reverse-lookup paging loop with explicit page sizes 1..5 x 0..12 ids and 99..201 ids at page sizes 7/50/99/100/101 (through an added, non-replacing method in the persister package). Write-chunk boundaries: batches of 14999 / 15000 / 15001 / 30001 never-seen names (and 29999..30002 with every name twice; tuple batches of 2999..3001 and 7499..7501 tuples) through the same round trips - the insert of new mappings is chunked by 15000 rows. One failing statement (every statement in turn) in reverse lookups of 150 / 250 ids (several lookup pages): an error or the right names.",
+    text="182 adversarial strings (empty, separators, escapes, NFC/NFD, RTL, emoji, 4-byte runes, 10 kB, case / trailing-space / ZWJ twins): all 33k ordered pairs for injectivity of the string<->UUID mapping; batches of sizes around 1, 50, 100, 150, 200, 250 (thorough 1..260, 301, 400, 401) x 5 duplicate patterns x {subject id, subject set, mixed} through Mapper.FromTuple->ToTuple, FromQuery->ToQuery (16 shapes) and ToTree, position-wise; end-to-end write -> list / expand / check over REST and gRPC; the reverse-lookup paging loop with explicit page sizes 1..5 x 0..12 ids and 99..201 ids at page sizes 7/50/99/100/101 (through an added, non-replacing method in the persister package). Write-chunk boundaries: batches of 14999 / 15000 / 15001 / 30001 never-seen names (and 29999..30002 with every name twice; tuple batches of 2999..3001 and 7499..7501 tuples) through the same round trips - the insert of new mappings is chunked by 15000 rows. One failing statement (every statement in turn) in reverse lookups of 150 / 250 ids (several lookup pages): an error or the right names. Every reverse lookup is repeated: the second answer must equal the first.",
     note="Which id falls on the page boundary at the production page size depends on Go map iteration order and is not controlled (stated in evidence); UUIDv5 collision freedom is taken as given.",
     technique="bounded-exhaustive enumeration of names and batch shapes against round-trip / injectivity oracles",
     design_ref="§4 C16")
@@ -123,7 +123,7 @@ CLAIMED["C12"] = dict(
 
 CLAIMED["C05"] = dict(
     category="fault_enumeration", engine="sqlfault",
-    text="55 write requests (REST create, REST PATCH / gRPC Transact with |I| in {0,1,2,3000,3001} x |D| in {0,1,100,101,201}, delete-by-query, Manager-level TransactRelationTuples; thorough adds |I| = 6001 and 7501, crossing the 15000-mapping chunk). For each, with N = the SQL statements of the fault-free request seen by the driver tap: (a) EVERY k in 1..N x {fail before executing, fail after executing, drop the connection}; (b) an invalid tuple / unknown namespace at every position (chunk boundaries +-1 for large batches); (c) REAL crash points: a worker subprocess on a file-backed database is SIGKILLed inside the driver before and after every statement k and the file is reopened by a fresh registry; (d) a reader on a second registry (same database, WAL and shared-cache variants) reads while the writer is paused at EVERY statement boundary, and every pair of boundaries for a two-read reader. Oracle: relationships after in {before, apply(I,D,before)}, = before when an error was reported; reader observations are the before- or the after-state and never go backwards. (e) RETRY part: requests whose names were never seen by the database, attempt 1 rolled back by a fault at every statement k (before / after), then the same request retried and every written relationship looked up by name over REST - all-or-nothing includes the name mappings the request created (a fault after COMMIT ran is recognised by listing first).",
+    text="55 write requests (REST create, REST PATCH / gRPC Transact with |I| in {0,1,2,3000,3001} x |D| in {0,1,100,101,201}, delete-by-query, Manager-level TransactRelationTuples; thorough adds |I| = 6001 and 7501, crossing the 15000-mapping chunk). For each, with N = the SQL statements of the fault-free request seen by the driver tap: (a) EVERY k in 1..N x {fail before executing, fail after executing, drop the connection}; (b) an invalid tuple / unknown namespace at every position (chunk boundaries +-1 for large batches); (c) REAL crash points: a worker subprocess on a file-backed database is SIGKILLed inside the driver before and after every statement k and the file is reopened by a fresh registry; (d) a reader on a second registry (same database, WAL and shared-cache variants) reads while the writer is paused at EVERY statement boundary, and every pair of boundaries for a two-read reader. Oracle: relationships after in {before, apply(I,D,before)}, = before when an error was reported; reader observations are the before- or the after-state and never go backwards. (e) RETRY part: requests whose names were never seen by the database, attempt 1 rolled back by a fault at every statement k (before / after), then the same request retried and every written relationship looked up by name over REST - all-or-nothing includes the name mappings the request created (a fault after COMMIT ran is recognised by listing first). (f) action spellings (capitalised, upper case, leading / trailing space) at every delta position of the small PATCH requests: refused as a whole, or the whole request - never the request without that delta.",
     note="SQLite only (the only engine in the sandbox): what keto contributes - one transaction around the whole request, reused by nested calls - is what is falsifiable here; an error injected after COMMIT executed is a lost acknowledgement (either state accepted).",
     technique="exhaustive fault-position, crash-point (real SIGKILL) and reader-schedule enumeration at SQL-statement granularity on the implementation",
     design_ref="§4 C05")
